@@ -945,16 +945,30 @@ pub async fn handle_connection(
                 response_pipe.ensure_length(&mut response, body.len() as u64);
                 response_pipe.ensure_version(&mut response);
 
-                let mut body_pipe =
-                    ret_log_app_error!(response_pipe.send_response(response, false).await);
-
                 // a response to HEAD must not have a body
                 let body = if request.method() == Method::HEAD {
                     Bytes::new()
                 } else {
                     body
                 };
-                ret_log_app_error!(body_pipe.send_with_maybe_close(body, true).await);
+                let sent = async {
+                    let mut body_pipe = response_pipe.send_response(response, false).await?;
+                    body_pipe.send_with_maybe_close(body, true).await
+                }
+                .await;
+                match sent {
+                    // On HTTP/2 and HTTP/3, the client has reset this stream.
+                    // The other streams of the connection are still served.
+                    Err(application::Error::ClientRefusedResponse)
+                        if !matches!(
+                            version,
+                            Version::HTTP_09 | Version::HTTP_10 | Version::HTTP_11
+                        ) =>
+                    {
+                        continue
+                    }
+                    sent => ret_log_app_error!(sent),
+                }
 
                 // see the comment on the other call to `drain` below
                 if request.body_mut().drain().await.is_err() {
